@@ -231,7 +231,7 @@ func c11ChooseConfig(x *mc.X, e *c11Entry) *c11Config {
 		}
 	}
 	if !e.noOpts {
-		c.testLvl = x.Choose(5, "testLevel")
+		c.testLvl = x.Choose(6, "testLevel")
 	}
 	c.execLvl = x.Choose(5, "execLevel")
 	return c
@@ -286,6 +286,9 @@ func (c *c11Config) testOpts() []z.TestOption {
 			conf.DefaultIssueFormatter(e, ctx)
 			e.SetMessage("TESTFUNC:" + e.Code)
 		})}
+	case 5:
+		// a formatter that declines (sets nothing for this failure): the next level decides, execution before global
+		return []z.TestOption{z.MessageFunc(func(e *z.ZogIssue, ctx z.Ctx) {})}
 	case 4:
 		// a formatter that decorates the stock text: it reads the issue it is handed (code, params, value)
 		return []z.TestOption{z.MessageFunc(func(e *z.ZogIssue, ctx z.Ctx) {
@@ -379,7 +382,7 @@ func c11CheckIssue(is *z.ZogIssue, wantDtype, wantCode, pkey string, pval any, c
 		if lvl0 := c11StockText(is); lvl0 != "" && is.Message != "TESTFUNC:"+is.Code+":"+lvl0 {
 			return "precedence", fmt.Sprintf("message %q: the test's own MessageFunc did not see the issue the caller receives (stock text for it is %q)", is.Message, lvl0)
 		}
-	case cfg.testLvl >= 2:
+	case cfg.testLvl >= 2 && cfg.testLvl != 5:
 		if is.Message != "TESTFUNC:"+is.Code {
 			return "precedence", fmt.Sprintf("message %q is not from the test's own MessageFunc", is.Message)
 		}
@@ -602,7 +605,7 @@ func c11FrontScenario(x *mc.X) *mc.Outcome {
 func init() {
 	Register(&Prop{
 		ID:    "C11",
-		Rule:  "the finite catalogue, completely: one execution = one (built-in test or required/not_nil/coerce of a schema type | front-end decode issue | Custom schema issue) × mode × placement {top, field, element} × test-level {none, Message, MessageFunc, MessageFunc in two steps, MessageFunc decorating the stock text} × execution-level {none, WithIssueFormatter} × global {default formatter, i18n × default language {en,es} × context language {unset,en,es,unknown} × lang key {default, custom}} × pre-history {none, a caught issue with a custom message released, coerce+test issues collected}; every case is non-trivial (exactly one issue is produced and inspected); distinct = distinct configurations",
+		Rule:  "the finite catalogue, completely: one execution = one (built-in test or required/not_nil/coerce of a schema type | front-end decode issue | Custom schema issue) × mode × placement {top, field, element} × test-level {none, Message, MessageFunc, MessageFunc in two steps, MessageFunc decorating the stock text, MessageFunc that declines} × execution-level {none, WithIssueFormatter} × global {default formatter, i18n × default language {en,es} × context language {unset,en,es,unknown} × lang key {default, custom}} × pre-history {none, a caught issue with a custom message released, coerce+test issues collected}; every case is non-trivial (exactly one issue is produced and inspected); distinct = distinct configurations",
 		Floor: 100,
 		Bound: func(tier string) string {
 			return fmt.Sprintf("%d catalogue entries + 6 front-end/custom cases (front-end cases into Struct and into a top-level Ptr(Struct)), full product of all configuration dimensions", len(c11Catalogue()))
